@@ -390,6 +390,9 @@ func (er *elRun) run() {
 	}
 	er.res.SimNanos = int64(w.Now())
 	er.res.Steps = w.Steps
+	for k, v := range w.Probes() {
+		er.res.Stats[k] += int64(v)
+	}
 	er.res.Shape = hashStrings(er.shape)
 	er.res.Nontrivial = er.res.Stats["start_signals"] > 0
 	er.res.TraceHash = hashTrace(w.Trace)
